@@ -14,6 +14,7 @@ EXPLANATION = (
     "positions/keys; the isinstance dispatch chains of the type mappers test subtypes before supertypes; no serializer dereferences the kwargs slot that the proxy leaves None for attribute and batch requests; compression flag/transform pairing (shared with C06-R7). "
     "Also decided (rounds 4/5, mutation map): no serializer dereferences the kwargs slot the proxy leaves None; marshal's pre-conversion recurses into containers with a per-path cycle guard; the byte normaliser returns the content of exactly the view it was given; the client refuses a reply encoded by another serializer before decoding it. "
     "documented type mapping, idempotence."
+    "Also decided (round 9): A batch member's result is collected exactly as the method returned it. "
     "Not decided: that serpent/json/marshal/msgpack/zlib return what was put in over the unbounded value domain, the "
 )
 
@@ -163,6 +164,23 @@ def run(ctx, R, tier):
         ok = any(rccfg.guarded(n, lambda e: edge_has_fact(e, is_kind)) for n in rec_nodes)
         R.check(ok, "C01-R5", "recreate_classes|%s" % kind, "class-tagged values nested in a %s are re-created" % kind, rc.loc(),
                 "recreate_classes does not descend into %s values: a URI/exception/set inside such a container arrives as a raw dict" % kind)
+    # a result travels the same way from a batch as from a plain call: what the batch loop collects for a successful member is the method's return value itself
+    hr_ = ctx.fn("Pyro5.server.Daemon.handleRequest")
+    rd_ = ctx.rd(hr_)
+    loops_ = [n for n in walk_no_nested(hr_.node) if isinstance(n, ast.For)]
+    bad_ = None
+    n_app = 0
+    for lp_ in loops_:
+        dyn = [c for c in walk_no_nested(lp_) if isinstance(c, ast.Call) and isinstance(c.func, ast.Name) and ctx.cg.is_local(hr_, c.func.id) and any(isinstance(a, ast.Starred) for a in c.args)]
+        for c in [c for c in walk_no_nested(lp_) if isinstance(c, ast.Call) and isinstance(c.func, ast.Attribute) and c.func.attr == "append" and c.args and isinstance(c.args[0], ast.Name)]:
+            defs_ = [d for n in ctx.node_of(hr_, c) for d in rd_.reaching(n, c.args[0].id)]
+            if dyn and any(d.kind == "assign" and any(d.value is x for x in dyn) for d in defs_):
+                n_app += 1
+                if not all(d.kind == "assign" and any(d.value is x for x in dyn) for d in defs_):
+                    bad_ = c
+    R.check(n_app >= 1 and bad_ is None, "C01-R7", "batch|result-collected-as-returned", "a batch member's result is collected exactly as the method returned it", hr_.loc(bad_) if bad_ is not None else hr_.loc(),
+            "the value appended for a successful batch member is (on some path) not the method's return value but something computed from it: the same value arrives differently "
+            "from a batch than from a plain call" if n_app else "the batch loop's result append was not found")
     for fq, enc, dec, what in (("Pyro5.server.Daemon.handleRequest", "loadsCall", "dumps", "server"), ("Pyro5.client.Proxy._pyroInvoke", "dumpsCall", "loads", "client")):
         g = ctx.fn(fq)
         grd = ctx.rd(g)
